@@ -46,6 +46,7 @@ type c04World struct {
 	minSlack                           time.Duration
 	inCallback                         int
 	selfSchedulesInRepeating           int
+	zeroDelayAfterOwnCancel            int
 	inRepeatingCallbackOf              map[*c04Timer]int
 	firedThisPoll                      int
 }
@@ -119,7 +120,13 @@ func (x *c04World) behave(self *c04Timer, what string) {
 			x.c.Logf("      handler(%s): cancels its own repeating series, schedules itself anew ...", what)
 			x.cancel(self)
 			if !x.c.Failed() {
-				x.schedule(self, time.Duration(r.Range(1, 20))*time.Millisecond, r.Bool())
+				if r.Chance(1, 3) {
+					// ... something that runs at once: the cancelled series stays cancelled
+					x.schedule(self, time.Duration(-r.Intn(2))*time.Millisecond, false)
+					x.zeroDelayAfterOwnCancel++
+				} else {
+					x.schedule(self, time.Duration(r.Range(1, 20))*time.Millisecond, r.Bool())
+				}
 			}
 			if r.Bool() && !x.c.Failed() {
 				x.c.Logf("      handler(%s): ... and cancels that again", what)
@@ -495,6 +502,7 @@ func runC04(c *vf.Case) {
 	c.Count("cross_handler_ops_on_expired_unprocessed_timer", x.crossOps)
 	c.Count("repeating_ticks", x.ticks)
 	c.Count("schedule_calls_on_a_repeating_timer_from_its_own_callback", x.selfSchedulesInRepeating)
+	c.Count("zero_delay_schedules_after_cancelling_the_own_repeating_series", x.zeroDelayAfterOwnCancel)
 	if x.minSlack != 0 {
 		c.Min("min_slack_ns", int64(x.minSlack))
 	}
